@@ -197,6 +197,9 @@ def do_ops(run, w, ops, after=None, start=0):
     for k, op in enumerate(ops):
         try:
             info = apply_op(run, w, start + k, op)
+            if w.cfg.get('leaf_first'):
+                # observation order: the deepest nodes are looked at first, the root last
+                w.leaf_first = [(n, n.value) for n in sorted(w.root.members, key=lambda n: -n.full_name.count('>'))]
             w.root.value    # force the lazy refresh so that exceptions of the update surface here
         except Exception as e:
             run.note('raised', repr(e)[:120])
